@@ -259,9 +259,14 @@ def impl_indent(hp, work, text):
 	after = fixed.split('\n')[:-1]
 	changes = ''.join(f'{i + 1}:{hex_str(a)}.' for i, (b, a) in enumerate(zip(before, after)) if a != b)
 	path.write_text(fixed, encoding='utf8', newline='')
-	parser2, collector2 = parse_real(hp, path)
-	again, _ = fold_fix(hp, parser2, fixed)
-	report_after = render_complaints(collector2.of('indentedPreprocessor'))
+	try:
+		parser2, collector2 = parse_real(hp, path)
+		again, _ = fold_fix(hp, parser2, fixed)
+		report_after = render_complaints(collector2.of('indentedPreprocessor'))
+	except Exception as ex:  # pylint: disable=broad-except
+		# the fixer's own output is not even readable by the linter any more (only seen with a broken fixer)
+		again = ''
+		report_after = f'crash:{type(ex).__name__}'
 	return f'{fixes}|{report}|{changes}|{report_after}|{"T" if again == fixed else "F"}', (fixed, again, len(before) == len(after))
 
 
@@ -424,7 +429,44 @@ SYNTH_FILES = [
 	'// no preprocessor line at all\nint main() { return 0; }\n',
 	'#define STR(x) \\\n\t#x\n#define CAT(a, b) \\\n#a ## #b\n',
 	'#if defined(_MSC_VER)\n\t#pragma warning(push)\n\t#pragma once\n#endif\n#pragma once\n',
+	# characters that str.splitlines() - but neither the compiler nor the linter's reader - takes for line ends, inside lines that precede
+	# mis-indented preprocessor lines: form feed (page break), vertical tab, FS / GS / RS, NEL, U+2028, U+2029
+	'#pragma once\n#include <stdint.h>\n\n// ---- section one ----\x0c\nnamespace catapult {\n\tstruct Foo {\n\t\t#ifdef _MSC_VER\n\t\tuint64_t Value;\n\t\t#endif\n\t};\n}\n',
+	'#include "Foo.h"\n\nnamespace catapult {\n\t// separators: \u2028 and \x85 are not newlines\n\tconst char* Text = "a\x0bb";\n\t#if defined(FOO)\n\tint x = 1;\n\t#endif\n}\n',
+	'int a; // \x1c|\x1d|\x1e|\u2029|x\n\t#ifdef A\n\t\t#define B(x) \\\n\t\t\t\tx; \\\n\t\t\t\ty\n#endif\n',
+	'#define X "a\x0cb" /* \x0b */\n\t#define Y 1\n  #include "a\x0cb.h"\n',
+	'#define M(x) \\\n\t\t\tx\x0c; \\\n\ty\u2028z\n\t#undef M\n',
+	'/* page\x0c\x0cbreaks\x0c */\n\n  #include <a>\n\n/* \x85 */\n\t#include <b>\n',
+	# preprocessor lines on the very first / very last line, blank lines around them, nothing but a newline, nothing at all
+	'\t#include <a>\nint x;\n',
+	'int x;\n  #include "b.h"\n',
+	' #define ONLY 1\n',
+	'int a;\n\n\t#ifdef A\n\n\n\t#endif\n\n',
+	'\n',
+	'',
 ]
+EXOTIC = ['\x0b', '\x0c', '\x1c', '\x1d', '\x1e', '\x85', '\u2028', '\u2029']
+
+
+def exoticize(rng, text, count=6):
+	"""Puts a few characters that some line splitters (not the compiler, not the linter's reader) take for line ends INSIDE lines of an
+	LF file: between two non-blank characters of lines that are not preprocessor lines, and inside the body of directive / continuation lines."""
+	lines = text.split('\n')
+	roles = pp_roles(lines)
+	candidates = [i for i, line in enumerate(lines) if len(line.strip()) >= 4 and (roles[i] == '-' or not re.match(r'\s*#\s*include', line))]
+	for i in rng.sample(candidates, min(count, len(candidates))):
+		line = lines[i]
+		body_end = len(line.rstrip(' \t\\')) - 1
+		body_start = len(line) - len(line.lstrip()) + 2
+		if roles[i] == 'D':   # only inside the last word of a directive, never in its keyword
+			body_start = max(line.rfind(' ', 0, body_end), line.rfind('\t', 0, body_end)) + 2
+			if line.strip() == '#pragma once' or body_start < len(line) - len(line.lstrip()) + 4:
+				continue
+		if body_start >= body_end:
+			continue
+		position = rng.randrange(body_start, body_end)
+		lines[i] = line[:position] + rng.choice(EXOTIC) + line[position:]
+	return '\n'.join(lines)
 
 
 def file_cases(rng, tier):
@@ -457,6 +499,9 @@ def file_cases(rng, tier):
 		cases.append((rel, rel, misindent(rng, text)))
 	for rel in sorted(chosen)[:max(3, want // 10)]:
 		cases.append((rel + ' (as is)', rel, (CLIENT / rel).read_text(encoding='utf8')))
+	for rel in sorted(chosen, key=lambda name: hashlib.sha256(name.encode('utf8')).digest())[:max(6, want // 4)]:
+		text = (CLIENT / rel).read_text(encoding='utf8')
+		cases.append((rel + ' (FF/VT/FS/GS/RS/NEL/U+2028/U+2029 inside lines)', rel, misindent(rng, exoticize(rng, text), 0.7)))
 	return cases
 
 
